@@ -96,3 +96,20 @@ add("C09",
     "contracts on the real functions; engine V for the difference vector, real code on symbolic control points / weights over concrete knot vectors against the formally differentiated spec (bounded in shape)")
 ENGINE_S += ["C03", "C09"]
 ENGINE_V += ["C03", "C09"]
+
+add("C10",
+    "closed/open linspace closed forms (length, values i/(n-1) resp. (2i+1)/(2n), inside [0,1], increasing) proved for ALL n by engine V; the six memo tables are "
+    "proved by frame analysis over the AST to be written only by their getter at key npts, so the rule for n depends on n alone for every call order; exactness "
+    "to order / weights sum / node order are exact arithmetic per n up to a bound (bounded in n, not a proof over n); Integrate.scalar and Integrate.function "
+    "with symbolic control points / integrand coefficients on concrete knot vectors equal the closed form exactly; Integrate.lenght on concrete polylines. " + S_NOTE,
+    "DESIGN.md 5/C10", COMMON_TRUST + " Closed Newton-Cotes on discontinuous curves is known finding D12.",
+    "contracts on the real functions; engine V (AST->VC->z3) for the node generators, AST frame analysis for the memo tables, exact per-n arithmetic and symbolic-control-point execution for the rest (bounded)")
+add("C12",
+    "Contract on Curve.fit_points / fit_function / LeastSquare.fit_function / Linalg.lstsq: the linear map data -> control points is extracted exactly and checked "
+    "against the spec collocation matrix B for ALL data vectors: B^T(B M - I) == 0, M B == I, B M == I when len(points) == npts; fewer points rejected; "
+    "fit_function reproduces a symbolic element of the curve's own (polynomial or rational) space. " + S_NOTE,
+    "DESIGN.md 5/C12", COMMON_TRUST + " Linalg.* run-time monitored (A4).",
+    "contracts on the real functions; real code on symbolic data vectors over concrete knot vectors and node sets, exact rational matrix identities (bounded in shape)")
+ENGINE_S += ["C10", "C12"]
+ENGINE_V += ["C10"]
+ENGINE_F += ["C10"]
